@@ -30,11 +30,13 @@ func init() {
 		c.Level = "exploration"
 		c.Rule = "depth-first enumeration of all schedules (thread choice at every lock/channel/atomic/IO point) of the real handleGet/sendNotification code within the preemption bound; an execution is distinct by its observation vector (send results, frames per stream, table content)"
 		c.Assume = append(c.Assume, "net/http replaced by memnet (headers reach the client at Flush)", "handshake prelude runs under the default schedule")
-		pb := c.Pick(2, 3)
-		c.DFS("c11/reopen-send", explore.Bounds{Preempt: pb, Dev: 1})
-		c.DFS("c11/reopen-roots", explore.Bounds{Preempt: pb, Dev: 1})
-		c.DFS("c11/reopen-close1", explore.Bounds{Preempt: pb, Dev: 1})
-		c.DFS("c11/triple", explore.Bounds{Preempt: c.Pick(2, 2), Dev: 1})
+		pb := c.Pick(3, 6)
+		c.DFS("c11/reopen-send", explore.Bounds{Preempt: pb, Dev: 2, POR: true})
+		c.DFS("c11/reopen-roots", explore.Bounds{Preempt: pb, Dev: 2, POR: true})
+		c.DFS("c11/reopen-close1", explore.Bounds{Preempt: pb, Dev: 2, POR: true})
+		c.DFS("c11/triple", explore.Bounds{Preempt: c.Pick(3, 5), Dev: 1, POR: true})
+		// plain (no reduction) cross-check
+		c.DFS("c11/reopen-send", explore.Bounds{Preempt: 2, Dev: 1})
 	})
 }
 
@@ -57,7 +59,7 @@ func findNote(frames []string, n int) int {
 func c11Run(prefix []int, mode string) explore.Outcome {
 	var viol []explore.Violation
 	obs := &hx.Log{}
-	res := vsched.Run(vsched.Config{Prefix: prefix}, func() {
+	res := vsched.Run(cfgFor(prefix), func() {
 		vsched.SetBranching(false)
 		srv := mcp.NewServer("s", "1", mcp.WithServerLogger(hx.Nop{}))
 		fab := memnet.NewFabric("srv", srv.Handler())
@@ -198,7 +200,10 @@ func c11Run(prefix []int, mode string) explore.Outcome {
 
 // finishOutcome adds the generic checks (panic, deadlock, horizon, divergence) and builds the outcome.
 func finishOutcome(res *vsched.Result, obs *hx.Log, viol []explore.Violation, nontrivial bool) explore.Outcome {
-	o := explore.Outcome{Trace: res.Trace, Nontrivial: nontrivial}
+	o := explore.Outcome{Trace: res.Trace, Nontrivial: nontrivial, Pruned: res.Pruned}
+	if res.Pruned {
+		return o
+	}
 	if res.Divergence != "" {
 		o.Broken = "replay divergence: " + res.Divergence
 	}
